@@ -3,6 +3,7 @@ Definitions and helper lemmas shared by Props/C16.lean and Props/C17.lean about 
 (Helper lemmas only: property theorems are in the Props files.)
 -/
 import LeaspyVerif.Model.IndParams
+import Std.Data.String.ToNat
 
 namespace LeaspyVerif.IndParams
 
@@ -47,5 +48,895 @@ instance (sh : List (Name × Shape)) : Decidable (AllVec sh) := by
 
 instance (sh : List (Name × Shape)) : Decidable (NoUnderscore sh) := by
   unfold NoUnderscore; infer_instance
+
+
+/-! ### helper lemmas for Props/C16.lean -/
+
+theorem mapM_elemNum_none_iff (xs : List (RawElem q)) :
+    xs.mapM elemNum = none ↔ RawElem.bad ∈ xs := by
+  induction xs with
+  | nil => simp
+  | cons x xs ih =>
+    cases x with
+    | num x =>
+      cases h : xs.mapM elemNum <;> simp_all [elemNum]
+    | bad => simp [elemNum]
+
+theorem checkDict_none_iff (d : List (Name × RawVal q)) :
+    checkDict d = none ↔ ∃ kv ∈ d, checkVal kv.2 = none := by
+  unfold checkDict
+  induction d with
+  | nil => simp
+  | cons kv d ih =>
+    rw [List.mapM_cons]
+    cases h1 : checkVal kv.2 with
+    | none => simp; exact Or.inl h1
+    | some v =>
+      cases h2 : d.mapM (fun kv => (checkVal kv.2).map (fun v => (kv.1, v))) with
+      | none =>
+        obtain ⟨kv', hm, hk⟩ := ih.1 h2
+        simp; exact Or.inr ⟨_, _, hm, hk⟩
+      | some l =>
+        simp
+        refine ⟨by simp [h1], ?_⟩
+        intro a b hm hb; have := ih.2 ⟨_, hm, hb⟩; simp [h2] at this
+
+
+theorem lookup_of_mem_nodup {β : Type} : ∀ (d : List (Name × β)) (k : Name) (v : β),
+    NodupKeys d → (k, v) ∈ d → d.lookup k = some v
+  | [], _, _, _, h => by simp at h
+  | (k', v') :: rest, k, v, hn, h => by
+    simp only [NodupKeys, List.map_cons, List.nodup_cons] at hn
+    rw [List.lookup_cons]
+    rcases List.mem_cons.1 h with h1 | h2
+    · cases h1; simp
+    · have hne : k ≠ k' := by
+        intro e
+        exact hn.1 (List.mem_map.2 ⟨(k, v), h2, e⟩)
+      have : (k == k') = false := by simpa using hne
+      rw [this]
+      exact lookup_of_mem_nodup rest k v hn.2 h2
+
+theorem mem_of_lookup {β : Type} : ∀ (d : List (Name × β)) (k : Name) (v : β),
+    d.lookup k = some v → (k, v) ∈ d
+  | [], _, _, h => by simp at h
+  | (k', v') :: rest, k, v, h => by
+    rw [List.lookup_cons] at h
+    by_cases e : k = k'
+    · subst e; simp at h; subst h; simp
+    · have : (k == k') = false := by simpa using e
+      rw [this] at h
+      exact List.mem_cons_of_mem _ (mem_of_lookup rest k v h)
+
+theorem lookup_eq_none_of_not_mem {β : Type} : ∀ (d : List (Name × β)) (k : Name),
+    k ∉ d.map (·.1) → d.lookup k = none
+  | [], _, _ => rfl
+  | (k', v') :: rest, k, h => by
+    simp only [List.map_cons, List.mem_cons, not_or] at h
+    rw [List.lookup_cons]
+    have : (k == k') = false := by simpa using h.1
+    rw [this]
+    exact lookup_eq_none_of_not_mem rest k h.2
+
+theorem lookup_reorder (sh : List (Name × Shape)) (d : List (Name × Val q)) (k : Name) :
+    (reorder sh d).lookup k = if k ∈ sh.map (·.1) then d.lookup k else none := by
+  induction sh with
+  | nil => simp [reorder]
+  | cons a rest ih =>
+    unfold reorder at ih ⊢
+    rw [List.filterMap_cons]
+    cases h : d.lookup a.1 with
+    | none =>
+      simp only [Option.map_none, ih, List.map_cons, List.mem_cons]
+      by_cases e : k = a.1
+      · subst e; simp [h]
+      · simp only [e, false_or]
+    | some v =>
+      simp only [Option.map_some, List.lookup_cons, ih, List.map_cons, List.mem_cons]
+      by_cases e : k = a.1
+      · subst e; simp [h]
+      · have : (k == a.1) = false := by simpa using e
+        simp only [this, e, false_or]
+
+theorem mem_reorder (sh : List (Name × Shape)) (d : List (Name × Val q)) (kv : Name × Val q)
+    (h : kv ∈ reorder sh d) : kv ∈ d := by
+  unfold reorder at h
+  rw [List.mem_filterMap] at h
+  obtain ⟨ns, _, h2⟩ := h
+  cases h3 : d.lookup ns.1 with
+  | none => simp [h3] at h2
+  | some v =>
+    simp [h3] at h2; subst h2
+    exact mem_of_lookup _ _ _ h3
+
+theorem filterMap_eq_self {α : Type} (f : α → Option α) : ∀ (l : List α), (∀ x ∈ l, f x = some x) → l.filterMap f = l
+  | [], _ => rfl
+  | x :: l, h => by
+    rw [List.filterMap_cons, h x (by simp)]
+    simp only
+    rw [filterMap_eq_self f l (fun y hy => h y (by simp [hy]))]
+
+theorem reorder_of_aligned (sh : List (Name × Shape)) (d : List (Name × Val q)) (hn : NodupKeys sh)
+    (ha : d.map (fun kv => (kv.1, shapeOf kv.2)) = sh) : reorder sh d = d := by
+  subst ha
+  have hnd : NodupKeys d := by
+    simpa [NodupKeys, List.map_map, Function.comp_def] using hn
+  unfold reorder
+  rw [List.filterMap_map]
+  have : ∀ kv ∈ d, ((fun ns : Name × Shape => (d.lookup ns.1).map (fun v => (ns.1, v))) ∘
+      (fun kv : Name × Val q => (kv.1, shapeOf kv.2))) kv = some kv := by
+    intro kv hkv
+    simp [lookup_of_mem_nodup d kv.1 kv.2 hnd hkv]
+  exact filterMap_eq_self _ _ this
+
+
+theorem add_str_dict (c : Container q) (s : String) (d : List (Name × RawVal q)) :
+    add c (.str s) (.dict d) =
+      if c.ids.contains s then .error .input else
+      match checkDict d with
+      | none => .error .input
+      | some vals =>
+        match c.shapes with
+        | none => .ok { ids := c.ids ++ [s], params := c.params ++ [(s, vals)],
+                        shapes := some (vals.map (fun kv => (kv.1, shapeOf kv.2))) }
+        | some sh =>
+          if dictEq sh (vals.map (fun kv => (kv.1, shapeOf kv.2))) then
+            .ok { c with ids := c.ids ++ [s], params := c.params ++ [(s, vals)] }
+          else .error .input := by
+  rfl
+
+theorem checkDict_nil : checkDict ([] : List (Name × RawVal q)) = some [] := rfl
+
+theorem checkDict_cons (kv : Name × RawVal q) (d : List (Name × RawVal q)) :
+    checkDict (kv :: d) =
+      match checkVal kv.2, checkDict d with
+      | some v, some vs => some ((kv.1, v) :: vs)
+      | _, _ => none := by
+  unfold checkDict
+  rw [List.mapM_cons]
+  cases checkVal kv.2 <;> cases d.mapM (fun kv => (checkVal kv.2).map (fun v => (kv.1, v))) <;> rfl
+
+theorem checkVal_ne_nil (r : RawVal q) (v : Val q) (h : checkVal r = some v) : v ≠ .vec [] := by
+  cases r with
+  | num x => simp [checkVal] at h; subst h; simp
+  | bad => simp [checkVal] at h
+  | list xs =>
+    cases xs with
+    | nil => simp [checkVal] at h
+    | cons x xs =>
+      simp only [checkVal, List.isEmpty_cons, Bool.false_eq_true, if_false, List.mapM_cons] at h
+      cases h1 : elemNum x <;> cases h2 : xs.mapM elemNum <;> simp [h1, h2] at h
+      subst h; simp
+
+theorem checkDict_some : ∀ (d : List (Name × RawVal q)) (vals : List (Name × Val q)),
+    checkDict d = some vals → vals.map (·.1) = d.map (·.1) ∧ ∀ kv ∈ vals, kv.2 ≠ .vec []
+  | [], vals, h => by simp [checkDict_nil] at h; subst h; simp
+  | kv :: d, vals, h => by
+    rw [checkDict_cons] at h
+    cases h1 : checkVal kv.2 with
+    | none => simp [h1] at h
+    | some v =>
+      cases h2 : checkDict d with
+      | none => simp [h1, h2] at h
+      | some vs =>
+        simp [h1, h2] at h; subst h
+        obtain ⟨ih1, ih2⟩ := checkDict_some d vs h2
+        refine ⟨by simp [ih1], ?_⟩
+        intro kv' hkv'
+        rcases List.mem_cons.1 hkv' with e | e
+        · subst e; exact checkVal_ne_nil _ _ h1
+        · exact ih2 _ e
+
+theorem lookup_map_snd {β γ : Type} (f : β → γ) (k : Name) : ∀ (d : List (Name × β)),
+    (d.map (fun kv => (kv.1, f kv.2))).lookup k = (d.lookup k).map f
+  | [] => rfl
+  | (k', v) :: d => by
+    simp only [List.map_cons, List.lookup_cons]
+    cases k == k'
+    · exact lookup_map_snd f k d
+    · rfl
+
+theorem dictEq_self (sh : List (Name × Shape)) (hn : NodupKeys sh) : dictEq sh sh = true := by
+  unfold dictEq
+  simp only [beq_self_eq_true, Bool.true_and, List.all_eq_true]
+  intro kv hkv
+  simp [lookup_of_mem_nodup sh kv.1 kv.2 hn hkv]
+
+theorem dictEq_true {sh psh : List (Name × Shape)} (h : dictEq sh psh = true) :
+    sh.length = psh.length ∧ ∀ ns ∈ sh, psh.lookup ns.1 = some ns.2 := by
+  unfold dictEq at h
+  simp only [Bool.and_eq_true, beq_iff_eq, List.all_eq_true] at h
+  exact h
+
+theorem nodupKeys_map_snd {β γ : Type} (f : Name × β → γ) (d : List (Name × β)) :
+    NodupKeys (d.map (fun kv => (kv.1, f kv))) ↔ NodupKeys d := by
+  simp [NodupKeys, List.map_map, Function.comp_def]
+
+/-- a freshly checked dict covers its own shapes -/
+theorem covers_own (vals : List (Name × Val q)) (hn : NodupKeys vals) (hne : ∀ kv ∈ vals, kv.2 ≠ .vec []) :
+    Covers (vals.map (fun kv => (kv.1, shapeOf kv.2))) vals := by
+  refine ⟨hn, by simp, ?_⟩
+  intro ns hns
+  obtain ⟨kv, hkv, rfl⟩ := List.mem_map.1 hns
+  exact ⟨kv.2, lookup_of_mem_nodup _ _ _ hn hkv, rfl, hne kv hkv⟩
+
+theorem covers_of_dictEq (sh : List (Name × Shape)) (vals : List (Name × Val q)) (hn : NodupKeys vals)
+    (hne : ∀ kv ∈ vals, kv.2 ≠ .vec [])
+    (he : dictEq sh (vals.map (fun kv => (kv.1, shapeOf kv.2))) = true) : Covers sh vals := by
+  obtain ⟨hl, hall⟩ := dictEq_true he
+  refine ⟨hn, by simpa using hl.symm, ?_⟩
+  intro ns hns
+  have := hall ns hns
+  rw [lookup_map_snd (fun v => shapeOf v)] at this
+  cases hv : vals.lookup ns.1 with
+  | none => simp [hv] at this
+  | some v =>
+    simp [hv] at this
+    exact ⟨v, rfl, this, hne _ (mem_of_lookup _ _ _ hv)⟩
+
+theorem add_consistent (c c' : Container q) (i : RawId) (d : List (Name × RawVal q))
+    (hc : Consistent c) (hd : NodupKeys d) (h : add c i (.dict d) = .ok c') : Consistent c' := by
+  cases i with
+  | nonStr => simp [add] at h
+  | str s =>
+    rw [add_str_dict] at h
+    by_cases hs : s ∈ c.ids
+    · simp [hs] at h
+    · rw [if_neg (by simpa using hs)] at h
+      cases hcd : checkDict d with
+      | none => simp [hcd] at h
+      | some vals =>
+        obtain ⟨hk, hne⟩ := checkDict_some d vals hcd
+        have hnv : NodupKeys vals := by unfold NodupKeys; rw [hk]; exact hd
+        have hidn : (c.ids ++ [s]).Nodup := by
+          rw [List.nodup_append]
+          refine ⟨hc.ids_nodup, by simp, ?_⟩
+          intro a ha b hb
+          simp at hb; subst hb
+          intro e; subst e; exact hs ha
+        cases hsh : c.shapes with
+        | none =>
+          simp only [hcd, hsh] at h
+          cases h
+          have hid : c.ids = [] := hc.empty hsh
+          have hp : c.params = [] := by
+            have := hc.keys; rw [hid] at this; simpa using this
+          constructor
+          · exact hidn
+          · simp [hc.keys]
+          · intro sh _; simp
+          · intro h; simp at h
+          · intro sh h; simp at h; subst h
+            exact (nodupKeys_map_snd (fun kv => shapeOf kv.2) vals).2 hnv
+          · intro sh h ip hip
+            simp at h; subst h
+            simp [hp] at hip; subst hip
+            exact covers_own vals hnv hne
+        | some sh =>
+          simp only [hcd, hsh] at h
+          by_cases he : dictEq sh (vals.map (fun kv => (kv.1, shapeOf kv.2))) = true
+          · rw [if_pos he] at h
+            cases h
+            constructor
+            · exact hidn
+            · simp [hc.keys]
+            · intro sh _; simp
+            · intro h; simp at h
+            · intro sh' h; simp at h; subst h; exact hc.shapes_nodup sh hsh
+            · intro sh' h ip hip
+              simp only [List.mem_append, List.mem_singleton] at hip
+              rcases hip with hip | hip
+              · simp at h; subst h; exact hc.covers sh hsh ip hip
+              · subst hip
+                simp at h; subst h
+                exact covers_of_dictEq sh vals hnv hne he
+          · rw [if_neg he] at h; cases h
+
+/-! #### table form -/
+
+theorem mapM_except_ok {α β ε : Type} (f : α → Except ε β) (g : α → β) : ∀ (l : List α),
+    (∀ x ∈ l, f x = .ok (g x)) → l.mapM f = .ok (l.map g)
+  | [], _ => rfl
+  | x :: l, h => by
+    rw [List.mapM_cons, h x (by simp), mapM_except_ok f g l (fun y hy => h y (by simp [hy]))]
+    rfl
+
+/-- the numbers of parameter `n` in the dict `d` -/
+def valAt (d : List (Name × Val q)) (n : Name) : List q :=
+  match d.lookup n with
+  | some v => flat v
+  | none => []
+
+theorem cells_shapeOf (v : Val q) (h : v ≠ .vec []) : cells (shapeOf v) v = .ok (flat v) := by
+  cases v with
+  | scalar x => rfl
+  | vec xs => rfl
+
+theorem rowOf_covers (sh : List (Name × Shape)) (d : List (Name × Val q)) (h : Covers sh d) :
+    rowOf sh d = .ok (sh.flatMap (fun ns => valAt d ns.1)) := by
+  unfold rowOf
+  rw [mapM_except_ok _ (fun ns => valAt d ns.1)]
+  · simp [Except.map, List.flatMap]
+  · intro ns hns
+    obtain ⟨v, h1, h2, h3⟩ := h.2.2 ns hns
+    simp only [lookupE, h1, valAt]
+    rw [← h2]
+    exact cells_shapeOf v h3
+
+theorem lookupId_of_mem {β : Type} : ∀ (l : List (String × β)) (k : String) (v : β),
+    (l.map (·.1)).Nodup → (k, v) ∈ l → l.lookup k = some v
+  | [], _, _, _, h => by simp at h
+  | (k', v') :: rest, k, v, hn, h => by
+    simp only [List.map_cons, List.nodup_cons] at hn
+    rw [List.lookup_cons]
+    rcases List.mem_cons.1 h with h1 | h2
+    · cases h1; simp
+    · have hne : k ≠ k' := by
+        intro e
+        exact hn.1 (List.mem_map.2 ⟨(k, v), h2, e⟩)
+      have : (k == k') = false := by simpa using hne
+      rw [this]
+      exact lookupId_of_mem rest k v hn.2 h2
+
+theorem toTable_consistent (c : Container q) (sh : List (Name × Shape)) (hc : Consistent c)
+    (hs : c.shapes = some sh) :
+    toTable c = .ok { cols := sh.flatMap (fun ns => colNames ns.1 ns.2),
+                      rows := c.params.map (fun ip => (RawId.str ip.1, sh.flatMap (fun ns => valAt ip.2 ns.1))) } := by
+  unfold toTable
+  rw [hs]
+  simp only
+  have hnd : (c.params.map (·.1)).Nodup := by rw [hc.keys]; exact hc.ids_nodup
+  rw [← hc.keys, List.mapM_map]
+  rw [mapM_except_ok _ (fun ip => (RawId.str ip.1, sh.flatMap (fun ns => valAt ip.2 ns.1)))]
+  · rfl
+  · intro ip hip
+    simp only [Function.comp, lookupId, lookupId_of_mem c.params ip.1 ip.2 hnd hip]
+    simp only [bind, Except.bind]
+    rw [rowOf_covers sh ip.2 (hc.covers sh hs ip hip)]
+    rfl
+
+
+theorem mapM_option_some {α β : Type} (f : α → Option β) (g : α → β) : ∀ (l : List α),
+    (∀ x ∈ l, f x = some (g x)) → l.mapM f = some (l.map g)
+  | [], _ => rfl
+  | x :: l, h => by
+    rw [List.mapM_cons, h x (by simp), mapM_option_some f g l (fun y hy => h y (by simp [hy]))]
+    rfl
+
+theorem filterMap_eq_map {α β : Type} (f : α → Option β) (g : α → β) : ∀ (l : List α),
+    (∀ x ∈ l, f x = some (g x)) → l.filterMap f = l.map g
+  | [], _ => rfl
+  | x :: l, h => by
+    rw [List.filterMap_cons, h x (by simp)]
+    simp only [List.map_cons]
+    rw [filterMap_eq_map f g l (fun y hy => h y (by simp [hy]))]
+
+theorem covers_allVec {sh : List (Name × Shape)} {d : List (Name × Val q)} (hc : Covers sh d)
+    (hv : AllVec sh) {ns : Name × Shape} (hns : ns ∈ sh) :
+    ∃ xs, d.lookup ns.1 = some (.vec xs) ∧ ns.2 = [xs.length] ∧ xs ≠ [] := by
+  obtain ⟨v, h1, h2, h3⟩ := hc.2.2 ns hns
+  obtain ⟨n, hn⟩ := hv ns hns
+  cases v with
+  | scalar x => simp [shapeOf, hn] at h2
+  | vec xs =>
+    refine ⟨xs, h1, h2.symm, ?_⟩
+    intro e; subst e; exact h3 rfl
+
+theorem valAt_covers {sh : List (Name × Shape)} {d : List (Name × Val q)} (hc : Covers sh d)
+    (hv : AllVec sh) {ns : Name × Shape} (hns : ns ∈ sh) :
+    d.lookup ns.1 = some (.vec (valAt d ns.1)) ∧ ns.2 = [(valAt d ns.1).length] ∧ valAt d ns.1 ≠ [] := by
+  obtain ⟨xs, h1, h2, h3⟩ := covers_allVec hc hv hns
+  have : valAt d ns.1 = xs := by simp [valAt, h1, flat]
+  rw [this]; exact ⟨h1, h2, h3⟩
+
+theorem reorder_covers {sh : List (Name × Shape)} {d : List (Name × Val q)} (hc : Covers sh d)
+    (hv : AllVec sh) : reorder sh d = sh.map (fun ns => (ns.1, .vec (valAt d ns.1))) := by
+  unfold reorder
+  apply filterMap_eq_map
+  intro ns hns
+  rw [(valAt_covers hc hv hns).1]; rfl
+
+theorem add_aligned (c : Container q) (s : String) (d : List (Name × RawVal q))
+    (vals : List (Name × Val q)) (sh : List (Name × Shape))
+    (hn : NodupKeys sh) (hsh : c.shapes = none ∨ c.shapes = some sh) (hs : s ∉ c.ids)
+    (hd : checkDict d = some vals) (hv : vals.map (fun kv => (kv.1, shapeOf kv.2)) = sh) :
+    add c (.str s) (.dict d) =
+      .ok { ids := c.ids ++ [s], params := c.params ++ [(s, vals)], shapes := some sh } := by
+  rw [add_str_dict, if_neg (by simpa using hs), hd]
+  rcases hsh with h | h
+  · simp only [h, hv]
+  · simp only [h, hv, dictEq_self sh hn, if_true]
+
+theorem mapM_elemNum_num : ∀ (xs : List q), (xs.map RawElem.num).mapM elemNum = some xs
+  | [] => rfl
+  | x :: xs => by
+    rw [List.map_cons, List.mapM_cons, mapM_elemNum_num xs]; rfl
+
+theorem checkVal_nums (xs : List q) (h : xs ≠ []) :
+    checkVal (.list (xs.map RawElem.num)) = some (.vec xs) := by
+  cases xs with
+  | nil => exact absurd rfl h
+  | cons x xs =>
+    simp only [checkVal, List.map_cons, List.isEmpty_cons, Bool.false_eq_true, if_false]
+    rw [← List.map_cons (f := RawElem.num), mapM_elemNum_num]; rfl
+
+theorem checkDict_nums (sh : List (Name × Shape)) (f : Name → List q) (h : ∀ ns ∈ sh, f ns.1 ≠ []) :
+    checkDict (sh.map (fun ns => (ns.1, RawVal.list ((f ns.1).map RawElem.num)))) =
+      some (sh.map (fun ns => (ns.1, Val.vec (f ns.1)))) := by
+  unfold checkDict
+  rw [List.mapM_map]
+  apply mapM_option_some
+  intro ns hns
+  simp only [Function.comp, checkVal_nums _ (h ns hns)]; rfl
+
+theorem shapes_vecDict (sh : List (Name × Shape)) (f : Name → List q)
+    (h : ∀ ns ∈ sh, ns.2 = [(f ns.1).length]) :
+    (sh.map (fun ns => (ns.1, Val.vec (f ns.1)))).map (fun kv => (kv.1, shapeOf kv.2)) = sh := by
+  rw [List.map_map]
+  have : ∀ ns ∈ sh, ((fun kv : Name × Val q => (kv.1, shapeOf kv.2)) ∘ (fun ns : Name × Shape => (ns.1, Val.vec (f ns.1)))) ns = id ns := by
+    intro ns hns
+    simp only [Function.comp, shapeOf, id, ← h ns hns]
+  rw [List.map_congr_left this]; simp
+
+/-- one accepted row: a dict of numeric lists whose lengths are the recorded shapes -/
+theorem add_vecDict (c : Container q) (s : String) (sh : List (Name × Shape)) (f : Name → List q)
+    (hn : NodupKeys sh) (hsh : c.shapes = none ∨ c.shapes = some sh) (hs : s ∉ c.ids)
+    (hf : ∀ ns ∈ sh, ns.2 = [(f ns.1).length] ∧ f ns.1 ≠ []) :
+    add c (.str s) (.dict (sh.map (fun ns => (ns.1, RawVal.list ((f ns.1).map RawElem.num))))) =
+      .ok { ids := c.ids ++ [s], params := c.params ++ [(s, sh.map (fun ns => (ns.1, Val.vec (f ns.1))))],
+            shapes := some sh } :=
+  add_aligned c s _ _ sh hn hsh hs (checkDict_nums sh f (fun ns hns => (hf ns hns).2))
+    (shapes_vecDict sh f (fun ns hns => (hf ns hns).1))
+
+theorem splitHeads_map {α : Type} (l : List α) (k : α → Name) (hd : α → RawVal q) (tl : α → List (RawVal q)) :
+    splitHeads (l.map (fun a => (k a, hd a :: tl a))) =
+      some (l.map (fun a => (k a, hd a)), l.map (fun a => (k a, tl a))) := by
+  unfold splitHeads
+  rw [List.mapM_map, mapM_option_some _ (fun a => ((k a, hd a), (k a, tl a)))]
+  · simp [List.unzip_eq_map, List.map_map, Function.comp_def]
+  · intro a _; rfl
+
+theorem fromTorchRows_ok (sh : List (Name × Shape)) (hn : NodupKeys sh) :
+    ∀ (P : List (String × (Name → List q))) (c : Container q),
+      (c.shapes = some sh ∨ (c.shapes = none ∧ P ≠ [])) →
+      (∀ ip ∈ P, ip.1 ∉ c.ids) → (P.map (·.1)).Nodup →
+      (∀ ip ∈ P, ∀ ns ∈ sh, ns.2 = [(ip.2 ns.1).length] ∧ ip.2 ns.1 ≠ []) →
+      fromTorchRows c (P.map (fun ip => RawId.str ip.1))
+          (sh.map (fun ns => (ns.1, P.map (fun ip => RawVal.list ((ip.2 ns.1).map RawElem.num))))) =
+        .ok { ids := c.ids ++ P.map (·.1),
+              params := c.params ++ P.map (fun ip => (ip.1, sh.map (fun ns => (ns.1, Val.vec (ip.2 ns.1))))),
+              shapes := some sh }
+  | [], c, hsh, _, _, _ => by
+    rcases hsh with h | h
+    · obtain ⟨ids, params, shapes⟩ := c
+      simp at h; subst h
+      simp [fromTorchRows]
+    · exact absurd rfl h.2
+  | ip :: P, c, hsh, hid, hnd, hf => by
+    simp only [List.map_cons, fromTorchRows]
+    rw [splitHeads_map sh (fun ns => ns.1) (fun ns => RawVal.list ((ip.2 ns.1).map RawElem.num))
+      (fun ns => P.map (fun ip => RawVal.list ((ip.2 ns.1).map RawElem.num)))]
+    simp only
+    rw [add_vecDict c ip.1 sh ip.2 hn (by rcases hsh with h | h; exact Or.inr h; exact Or.inl h.1)
+      (hid ip (by simp)) (hf ip (by simp))]
+    simp only
+    simp only [List.map_cons, List.nodup_cons] at hnd
+    rw [fromTorchRows_ok sh hn P _ (Or.inl rfl) ?_ hnd.2 (fun ip' h' => hf ip' (by simp [h']))]
+    · simp [List.append_assoc]
+    · intro ip' h' hmem
+      simp only [List.mem_append, List.mem_singleton] at hmem
+      rcases hmem with hmem | hmem
+      · exact hid ip' (by simp [h']) hmem
+      · exact hnd.1 (List.mem_map.2 ⟨ip', h', hmem⟩)
+
+theorem toTorch_consistent (rnd : q → q) (c : Container q) (sh : List (Name × Shape)) (hc : Consistent c)
+    (hs : c.shapes = some sh) :
+    toTorch rnd c = .ok (c.ids, sh.map (fun ns =>
+      (ns.1, Tensor.d2 (c.params.map (fun ip => (valAt ip.2 ns.1).map rnd))))) := by
+  unfold toTorch
+  rw [hs]
+  simp only
+  have hnd : (c.params.map (·.1)).Nodup := by rw [hc.keys]; exact hc.ids_nodup
+  rw [mapM_except_ok _ (fun ns => (ns.1, Tensor.d2 (c.params.map (fun ip => (valAt ip.2 ns.1).map rnd))))]
+  · rfl
+  · intro ns hns
+    rw [← hc.keys, List.mapM_map]
+    rw [mapM_except_ok _ (fun ip => (valAt ip.2 ns.1).map rnd)]
+    · rfl
+    · intro ip hip
+      simp only [Function.comp, lookupId, lookupId_of_mem c.params ip.1 ip.2 hnd hip]
+      simp only [bind, Except.bind]
+      obtain ⟨v, h1, h2, h3⟩ := (hc.covers sh hs ip hip).2.2 ns hns
+      simp only [lookupE, h1, valAt]
+      rw [← h2, cells_shapeOf v h3]
+      rfl
+
+theorem torch_roundtrip (rnd : q → q) (c : Container q) (sh : List (Name × Shape))
+    (hc : Consistent c) (hs : c.shapes = some sh) (hv : AllVec sh) :
+    (toTorch rnd c >>= fun it => fromTorch (it.1.map RawId.str) it.2) = .ok (mapVals rnd (normalize sh c)) := by
+  rw [toTorch_consistent rnd c sh hc hs]
+  show fromTorch _ _ = _
+  unfold fromTorch
+  have hlen : c.params.length = c.ids.length := by rw [← hc.keys]; simp
+  rw [if_neg (by simp [tensorLen, hlen])]
+  have hnd : (c.params.map (·.1)).Nodup := by rw [hc.keys]; exact hc.ids_nodup
+  have hne : c.params ≠ [] := by
+    intro e; apply hc.nonempty sh hs; rw [← hc.keys, e]; rfl
+  have := fromTorchRows_ok sh (hc.shapes_nodup sh hs)
+    (c.params.map (fun ip => (ip.1, fun n => (valAt ip.2 n).map rnd))) empty
+    (Or.inr ⟨rfl, by simpa using hne⟩) (by simp [empty])
+    (by simpa [List.map_map, Function.comp_def] using hnd)
+    (by
+      intro ip' hip' ns hns
+      obtain ⟨ip, hip, rfl⟩ := List.mem_map.1 hip'
+      obtain ⟨_, h2, h3⟩ := valAt_covers (hc.covers sh hs ip hip) hv hns
+      simp only [List.length_map]
+      exact ⟨h2, by simpa using h3⟩)
+  simp only [List.map_map, Function.comp_def, tensorRows] at this ⊢
+  rw [← hc.keys, List.map_map]
+  simp only [Function.comp_def]
+  rw [this]
+  obtain ⟨ids, params, shapes⟩ := c
+  simp only at hs hc ⊢
+  subst hs
+  simp only [empty, mapVals, normalize, List.nil_append, List.map_map, Function.comp_def, Except.ok.injEq,
+    Container.mk.injEq, and_true]
+  refine ⟨hc.keys, ?_⟩
+  apply List.map_congr_left
+  intro ip hip
+  rw [reorder_covers (hc.covers sh rfl ip hip) hv]
+  simp [List.map_map, Function.comp_def, mapVal]
+
+theorem mapVals_normalize_eq (rnd : q → q) (c : Container q) (sh : List (Name × Shape))
+    (hr : ∀ ip ∈ c.params, ∀ kv ∈ ip.2, mapVal rnd kv.2 = kv.2) :
+    mapVals rnd (normalize sh c) = normalize sh c := by
+  obtain ⟨ids, params, shapes⟩ := c
+  simp only [mapVals, normalize, List.map_map, Function.comp_def, Container.mk.injEq, true_and, and_true]
+  apply List.map_congr_left
+  intro ip hip
+  simp only [Prod.mk.injEq, true_and]
+  have : ∀ kv ∈ reorder sh ip.2, (fun kv : Name × Val q => (kv.1, mapVal rnd kv.2)) kv = id kv := by
+    intro kv hkv
+    simp [hr ip hip kv (mem_reorder sh ip.2 kv hkv)]
+  rw [List.map_congr_left this]; simp
+
+
+/-! #### column labels -/
+
+theorem prefixOf_self : ∀ (n : Name), '_' ∉ n → prefixOf n = n
+  | [], _ => rfl
+  | a :: n, h => by
+    simp only [List.mem_cons, not_or] at h
+    have : (a != '_') = true := by simpa using fun e => h.1 e.symm
+    simp only [prefixOf, List.takeWhile_cons, this, if_true]
+    exact congrArg _ (prefixOf_self n h.2)
+
+theorem prefixOf_append : ∀ (n rest : Name), '_' ∉ n → prefixOf (n ++ '_' :: rest) = n
+  | [], rest, _ => by simp [prefixOf]
+  | a :: n, rest, h => by
+    simp only [List.mem_cons, not_or] at h
+    have : (a != '_') = true := by simpa using fun e => h.1 e.symm
+    simp only [prefixOf, List.cons_append, List.takeWhile_cons, this, if_true]
+    exact congrArg _ (prefixOf_append n rest h.2)
+
+theorem append_us_ne (n rest : Name) : n ++ '_' :: rest ≠ n := by
+  intro e
+  have := congrArg List.length e
+  simp at this
+
+theorem idxStr_injective {i j : Nat} (h : idxStr i = idxStr j) : i = j :=
+  Nat.repr_injective (String.toList_inj.1 h)
+
+theorem sizeOf_singleton (k : Nat) : sizeOf [k] = k := by simp [sizeOf]
+
+theorem colNames_length (n : Name) (s : Shape) : (colNames n s).length = sizeOf s := by
+  unfold colNames
+  split
+  · rename_i hc
+    simp only [Bool.and_eq_true, beq_iff_eq] at hc
+    simp [hc.1]
+  · simp
+
+theorem nodup_map_of_inj {α β : Type} (f : α → β) (hf : ∀ i j, f i = f j → i = j) (l : List α)
+    (h : l.Nodup) : (l.map f).Nodup := by
+  unfold List.Nodup at h ⊢
+  rw [List.pairwise_map]
+  exact h.imp (fun hne e => hne (hf _ _ e))
+
+theorem flatMap_congr' {α β : Type} {f g : α → List β} : ∀ (l : List α), (∀ x ∈ l, f x = g x) →
+    l.flatMap f = l.flatMap g
+  | [], _ => rfl
+  | x :: l, h => by
+    rw [List.flatMap_cons, List.flatMap_cons, h x (by simp), flatMap_congr' l (fun y hy => h y (by simp [hy]))]
+
+theorem colNames_nodup (n : Name) (s : Shape) : (colNames n s).Nodup := by
+  unfold colNames
+  split
+  · simp
+  · apply nodup_map_of_inj _ _ _ List.nodup_range
+    intro i j e
+    have := List.append_cancel_left e
+    simp only [List.cons.injEq, true_and] at this
+    exact idxStr_injective this
+
+theorem colNames_prefix (n : Name) (s : Shape) (hu : '_' ∉ n) : ∀ l ∈ colNames n s, prefixOf l = n := by
+  unfold colNames
+  split
+  · intro l hl; simp at hl; rw [hl]; exact prefixOf_self n hu
+  · intro l hl
+    obtain ⟨i, _, rfl⟩ := List.mem_map.1 hl
+    exact prefixOf_append n _ hu
+
+/-- what `from_dataframe` remembers for one recorded parameter -/
+def specOf (ns : Name × Shape) : ColSpec :=
+  if sizeOf ns.2 == 1 && !hasSource ns.1 then .single ns.1 else .many (colNames ns.1 ns.2)
+
+/-! #### `groupCols` -/
+
+theorem dictSet_new {β : Type} (k : Name) (v : β) : ∀ (acc : List (Name × β)),
+    k ∉ acc.map (·.1) → dictSet acc k v = acc ++ [(k, v)]
+  | [], _ => rfl
+  | (k', v') :: acc, h => by
+    simp only [List.map_cons, List.mem_cons, not_or] at h
+    have : (k' == k) = false := by simpa using fun e => h.1 e.symm
+    simp only [dictSet, this, Bool.false_eq_true, if_false, List.cons_append]
+    exact congrArg _ (dictSet_new k v acc h.2)
+
+theorem dictSet_last {β : Type} (k : Name) (v v' : β) : ∀ (acc : List (Name × β)),
+    k ∉ acc.map (·.1) → dictSet (acc ++ [(k, v)]) k v' = acc ++ [(k, v')]
+  | [], _ => by simp [dictSet]
+  | (k', v'') :: acc, h => by
+    simp only [List.map_cons, List.mem_cons, not_or] at h
+    have : (k' == k) = false := by simpa using fun e => h.1 e.symm
+    simp only [dictSet, List.cons_append, this, Bool.false_eq_true, if_false]
+    exact congrArg _ (dictSet_last k v v' acc h.2)
+
+theorem lookup_last {β : Type} (k : Name) (v : β) : ∀ (acc : List (Name × β)),
+    k ∉ acc.map (·.1) → (acc ++ [(k, v)]).lookup k = some v
+  | [], _ => by simp
+  | (k', v'') :: acc, h => by
+    simp only [List.map_cons, List.mem_cons, not_or] at h
+    have : (k == k') = false := by simpa using h.1
+    simp only [List.cons_append, List.lookup_cons, this]
+    exact lookup_last k v acc h.2
+
+theorem groupCols_many_tail (n : Name) (more : List Name) (acc : List (Name × ColSpec))
+    (hacc : n ∉ acc.map (·.1)) : ∀ (xs l : List Name), (∀ x ∈ xs, prefixOf x = n ∧ x ≠ n) →
+    groupCols (xs ++ more) (acc ++ [(n, .many l)]) = groupCols more (acc ++ [(n, .many (l ++ xs))])
+  | [], l, _ => by simp
+  | x :: xs, l, h => by
+    obtain ⟨h1, h2⟩ := h x (by simp)
+    have hne : (n == x) = false := by simpa using fun e => h2 e.symm
+    simp only [List.cons_append, groupCols, h1, hne, Bool.false_eq_true, if_false,
+      lookup_last n _ acc hacc, dictSet_last n _ _ acc hacc]
+    rw [groupCols_many_tail n more acc hacc xs (l ++ [x]) (fun y hy => h y (by simp [hy]))]
+    simp
+
+theorem groupCols_colNames (n : Name) (s : Shape) (more : List Name) (acc : List (Name × ColSpec))
+    (hu : '_' ∉ n) (hs : 0 < sizeOf s) (hacc : n ∉ acc.map (·.1)) :
+    groupCols (colNames n s ++ more) acc = groupCols more (acc ++ [(n, specOf (n, s))]) := by
+  unfold colNames specOf
+  simp only
+  split
+  · have : (prefixOf n == n) = true := by simp [prefixOf_self n hu]
+    simp only [List.cons_append, List.nil_append, groupCols, this, if_true, dictSet_new n _ acc hacc]
+  · obtain ⟨k, hk⟩ : ∃ k, sizeOf s = k + 1 := ⟨sizeOf s - 1, by omega⟩
+    unfold colNames
+    rw [if_neg (by assumption)]
+    rw [hk, List.range_succ_eq_map]
+    simp only [List.map_cons, List.cons_append, groupCols]
+    have h1 : prefixOf (n ++ '_' :: idxStr 0) = n := prefixOf_append n _ hu
+    have hne : (n == n ++ '_' :: idxStr 0) = false := by
+      simp
+    simp only [h1, hne, Bool.false_eq_true, if_false, lookup_eq_none_of_not_mem acc n hacc]
+    rw [groupCols_many_tail n more acc hacc]
+    · simp
+    · intro x hx
+      simp only [List.map_map, List.mem_map] at hx
+      obtain ⟨i, _, rfl⟩ := hx
+      exact ⟨prefixOf_append n _ hu, append_us_ne n _⟩
+
+theorem groupCols_shapes : ∀ (sh : List (Name × Shape)) (acc : List (Name × ColSpec)),
+    NodupKeys sh → NoUnderscore sh → (∀ ns ∈ sh, 0 < sizeOf ns.2) → (∀ ns ∈ sh, ns.1 ∉ acc.map (·.1)) →
+    groupCols (sh.flatMap (fun ns => colNames ns.1 ns.2)) acc = .ok (acc ++ sh.map (fun ns => (ns.1, specOf ns)))
+  | [], acc, _, _, _, _ => by simp [groupCols]
+  | ns :: sh, acc, hn, hu, hs, hacc => by
+    simp only [NodupKeys, List.map_cons, List.nodup_cons] at hn
+    rw [List.flatMap_cons, groupCols_colNames ns.1 ns.2 _ acc (hu ns (by simp)) (hs ns (by simp)) (hacc ns (by simp))]
+    rw [groupCols_shapes sh _ hn.2 (fun x hx => hu x (by simp [hx])) (fun x hx => hs x (by simp [hx]))]
+    · simp
+    · intro x hx hmem
+      simp only [List.map_append, List.map_cons, List.map_nil, List.mem_append, List.mem_singleton] at hmem
+      rcases hmem with hmem | hmem
+      · exact hacc x (by simp [hx]) hmem
+      · exact hn.1 (List.mem_map.2 ⟨x, hx, hmem⟩)
+
+/-! #### label selection on a row -/
+
+theorem zip_flatMap {α β γ : Type} (f : α → List β) (g : α → List γ) : ∀ (l : List α),
+    (∀ x ∈ l, (f x).length = (g x).length) →
+    (l.flatMap f).zip (l.flatMap g) = l.flatMap (fun x => (f x).zip (g x))
+  | [], _ => rfl
+  | x :: l, h => by
+    simp only [List.flatMap_cons]
+    rw [List.zip_append (h x (by simp)), zip_flatMap f g l (fun y hy => h y (by simp [hy]))]
+
+theorem cellsAt_append (r1 r2 : List (Name × q)) (k : Name) :
+    cellsAt (r1 ++ r2) k = cellsAt r1 k ++ cellsAt r2 k := by
+  simp [cellsAt]
+
+theorem cellsAt_flatMap {α : Type} (h : α → List (Name × q)) (k : Name) : ∀ (l : List α),
+    cellsAt (l.flatMap h) k = l.flatMap (fun x => cellsAt (h x) k)
+  | [] => rfl
+  | x :: l => by
+    simp only [List.flatMap_cons, cellsAt_append, cellsAt_flatMap h k l]
+
+theorem cellsAt_zip_not_mem (k : Name) : ∀ (L : List Name) (xs : List q), k ∉ L → cellsAt (L.zip xs) k = []
+  | [], _, _ => by simp [cellsAt]
+  | _ :: _, [], _ => by simp [cellsAt]
+  | a :: L, x :: xs, h => by
+    simp only [List.mem_cons, not_or] at h
+    have : (a == k) = false := by simpa using fun e => h.1 e.symm
+    simp only [cellsAt, List.zip_cons_cons, List.filter_cons, this, Bool.false_eq_true, if_false]
+    exact cellsAt_zip_not_mem k L xs h.2
+
+theorem flatMap_single {α β : Type} (key : α → Name) (f : α → List β) (a : α) : ∀ (l : List α),
+    (l.map key).Nodup → a ∈ l → (∀ b ∈ l, key b ≠ key a → f b = []) → l.flatMap f = f a
+  | [], _, h, _ => by simp at h
+  | b :: l, hn, hm, hf => by
+    simp only [List.map_cons, List.nodup_cons] at hn
+    rw [List.flatMap_cons]
+    rcases List.mem_cons.1 hm with e | e
+    · subst e
+      have : l.flatMap f = [] := by
+        rw [List.flatMap_eq_nil_iff]
+        intro b hb
+        exact hf b (by simp [hb]) (fun e => hn.1 (e ▸ List.mem_map.2 ⟨b, hb, rfl⟩))
+      simp [this]
+    · have hne : key b ≠ key a := fun e' => hn.1 (e' ▸ List.mem_map.2 ⟨a, e, rfl⟩)
+      rw [hf b (by simp) hne, List.nil_append]
+      exact flatMap_single key f a l hn.2 e (fun b' hb' => hf b' (by simp [hb']))
+
+theorem flatMap_cellsAt_zip : ∀ (L : List Name) (xs : List q), L.Nodup → L.length = xs.length →
+    L.flatMap (cellsAt (L.zip xs)) = xs
+  | [], [], _, _ => rfl
+  | [], _ :: _, _, h => by simp at h
+  | _ :: _, [], _, h => by simp at h
+  | a :: L, x :: xs, hn, hl => by
+    simp only [List.nodup_cons] at hn
+    simp only [List.length_cons, Nat.add_right_cancel_iff] at hl
+    rw [List.flatMap_cons, List.zip_cons_cons]
+    have h1 : cellsAt ((a, x) :: L.zip xs) a = [x] := by
+      have := cellsAt_zip_not_mem a L xs hn.1
+      simp only [cellsAt] at this ⊢
+      simp [this]
+    have h2 : ∀ b ∈ L, cellsAt ((a, x) :: L.zip xs) b = cellsAt (L.zip xs) b := by
+      intro b hb
+      have : (a == b) = false := by
+        simp only [beq_eq_false_iff_ne, ne_eq]
+        intro e; subst e; exact hn.1 hb
+      simp [cellsAt, this]
+    rw [h1, flatMap_congr' L h2, flatMap_cellsAt_zip L xs hn.2 hl]
+    rfl
+
+/-- the row of one individual, as `from_dataframe` sees it -/
+def rowZip (sh : List (Name × Shape)) (f : Name → List q) : List (Name × q) :=
+  sh.flatMap (fun ns => (colNames ns.1 ns.2).zip (f ns.1))
+
+theorem cellsAt_rowZip (sh : List (Name × Shape)) (f : Name → List q) (hn : NodupKeys sh)
+    (hu : NoUnderscore sh) (ns : Name × Shape) (hns : ns ∈ sh) (l : Name) (hl : l ∈ colNames ns.1 ns.2) :
+    cellsAt (rowZip sh f) l = cellsAt ((colNames ns.1 ns.2).zip (f ns.1)) l := by
+  unfold rowZip
+  rw [cellsAt_flatMap]
+  apply flatMap_single (fun ns : Name × Shape => ns.1) _ ns sh hn hns
+  intro b hb hne
+  apply cellsAt_zip_not_mem
+  intro hmem
+  have h1 := colNames_prefix b.1 b.2 (hu b hb) l hmem
+  have h2 := colNames_prefix ns.1 ns.2 (hu ns hns) l hl
+  exact hne (h1.symm.trans h2)
+
+theorem selectSpec_rowZip (sh : List (Name × Shape)) (f : Name → List q) (hn : NodupKeys sh)
+    (hu : NoUnderscore sh) (ns : Name × Shape) (hns : ns ∈ sh)
+    (hf : ns.2 = [(f ns.1).length] ∧ f ns.1 ≠ []) :
+    selectSpec (rowZip sh f) (specOf ns) = .list ((f ns.1).map RawElem.num) := by
+  have hlen : (colNames ns.1 ns.2).length = (f ns.1).length := by
+    rw [colNames_length, hf.1, sizeOf_singleton]
+  have key : (colNames ns.1 ns.2).flatMap (cellsAt (rowZip sh f)) = f ns.1 := by
+    rw [flatMap_congr' _ (fun l hl => cellsAt_rowZip sh f hn hu ns hns l hl)]
+    exact flatMap_cellsAt_zip _ _ (colNames_nodup _ _) hlen
+  unfold specOf
+  split
+  · rename_i hc
+    have hcn : colNames ns.1 ns.2 = [ns.1] := by unfold colNames; rw [if_pos hc]
+    rw [hcn] at key hlen
+    simp only [List.flatMap_cons, List.flatMap_nil, List.append_nil] at key
+    simp only [selectSpec, key]
+    match hx : f ns.1, hlen with
+    | [x], _ => rfl
+  · simp only [selectSpec, key]
+
+theorem fromTableRows_ok (sh : List (Name × Shape)) (hn : NodupKeys sh) (hu : NoUnderscore sh) :
+    ∀ (P : List (String × (Name → List q))) (c : Container q),
+      (c.shapes = some sh ∨ (c.shapes = none ∧ P ≠ [])) →
+      (∀ ip ∈ P, ip.1 ∉ c.ids) → (P.map (·.1)).Nodup →
+      (∀ ip ∈ P, ∀ ns ∈ sh, ns.2 = [(ip.2 ns.1).length] ∧ ip.2 ns.1 ≠ []) →
+      fromTableRows (sh.map (fun ns => (ns.1, specOf ns))) (sh.flatMap (fun ns => colNames ns.1 ns.2)) c
+          (P.map (fun ip => (RawId.str ip.1, sh.flatMap (fun ns => ip.2 ns.1)))) =
+        .ok { ids := c.ids ++ P.map (·.1),
+              params := c.params ++ P.map (fun ip => (ip.1, sh.map (fun ns => (ns.1, Val.vec (ip.2 ns.1))))),
+              shapes := some sh }
+  | [], c, hsh, _, _, _ => by
+    rcases hsh with h | h
+    · obtain ⟨ids, params, shapes⟩ := c
+      simp at h; subst h
+      simp [fromTableRows]
+    · exact absurd rfl h.2
+  | ip :: P, c, hsh, hid, hnd, hf => by
+    simp only [List.map_cons, fromTableRows]
+    have hrow : (sh.flatMap (fun ns => colNames ns.1 ns.2)).zip (sh.flatMap (fun ns => ip.2 ns.1)) =
+        rowZip sh ip.2 := by
+      unfold rowZip
+      apply zip_flatMap
+      intro ns hns
+      obtain ⟨h1, _⟩ := hf ip (by simp) ns hns
+      rw [colNames_length, h1, sizeOf_singleton]
+    rw [hrow, List.map_map]
+    have hd : sh.map ((fun ps : Name × ColSpec => (ps.1, selectSpec (rowZip sh ip.2) ps.2)) ∘
+          (fun ns : Name × Shape => (ns.1, specOf ns))) =
+        sh.map (fun ns => (ns.1, RawVal.list ((ip.2 ns.1).map RawElem.num))) := by
+      apply List.map_congr_left
+      intro ns hns
+      simp only [Function.comp, selectSpec_rowZip sh ip.2 hn hu ns hns (hf ip (by simp) ns hns)]
+    rw [hd]
+    rw [add_vecDict c ip.1 sh ip.2 hn (by rcases hsh with h | h; exact Or.inr h; exact Or.inl h.1)
+      (hid ip (by simp)) (hf ip (by simp))]
+    simp only
+    simp only [List.map_cons, List.nodup_cons] at hnd
+    rw [fromTableRows_ok sh hn hu P _ (Or.inl rfl) ?_ hnd.2 (fun ip' h' => hf ip' (by simp [h']))]
+    · simp [List.append_assoc]
+    · intro ip' h' hmem
+      simp only [List.mem_append, List.mem_singleton] at hmem
+      rcases hmem with hmem | hmem
+      · exact hid ip' (by simp [h']) hmem
+      · exact hnd.1 (List.mem_map.2 ⟨ip', h', hmem⟩)
+
+theorem table_roundtrip (c : Container q) (sh : List (Name × Shape))
+    (hc : Consistent c) (hs : c.shapes = some sh) (hv : AllVec sh) (hu : NoUnderscore sh) :
+    (toTable c >>= fromTable) = .ok (normalize sh c) := by
+  rw [toTable_consistent c sh hc hs]
+  show fromTable _ = _
+  unfold fromTable
+  have hnk := hc.shapes_nodup sh hs
+  have hnd : (c.params.map (·.1)).Nodup := by rw [hc.keys]; exact hc.ids_nodup
+  have hne : c.params ≠ [] := by
+    intro e; apply hc.nonempty sh hs; rw [← hc.keys, e]; rfl
+  obtain ⟨ip0, hip0⟩ := List.exists_mem_of_ne_nil _ hne
+  have hpos : ∀ ns ∈ sh, 0 < sizeOf ns.2 := by
+    intro ns hns
+    obtain ⟨_, h2, h3⟩ := valAt_covers (hc.covers sh hs ip0 hip0) hv hns
+    rw [h2, sizeOf_singleton]; exact List.length_pos_iff.2 h3
+  simp only
+  rw [groupCols_shapes sh [] hnk hu hpos (by simp)]
+  simp only [List.nil_append]
+  have := fromTableRows_ok sh hnk hu
+    (c.params.map (fun ip => (ip.1, fun n => valAt ip.2 n))) empty
+    (Or.inr ⟨rfl, by simpa using hne⟩) (by simp [empty])
+    (by simpa [List.map_map, Function.comp_def] using hnd)
+    (by
+      intro ip' hip' ns hns
+      obtain ⟨ip, hip, rfl⟩ := List.mem_map.1 hip'
+      obtain ⟨_, h2, h3⟩ := valAt_covers (hc.covers sh hs ip hip) hv hns
+      exact ⟨h2, h3⟩)
+  simp only [List.map_map, Function.comp_def] at this
+  rw [this]
+  obtain ⟨ids, params, shapes⟩ := c
+  simp only at hs hc ⊢
+  subst hs
+  simp only [empty, normalize, List.nil_append, Except.ok.injEq, Container.mk.injEq, and_true]
+  refine ⟨hc.keys, ?_⟩
+  apply List.map_congr_left
+  intro ip hip
+  rw [reorder_covers (hc.covers sh rfl ip hip) hv]
 
 end LeaspyVerif.IndParams
